@@ -26,7 +26,7 @@ pub fn state_invariant(e: &Envelope, last_op: &str, desc: &dyn Fn() -> String, a
         Ok(r) => if r.to_cbor_data() != bytes || bind::observe(&r) != o { acc.viol(format!("C04|roundtrip-differs|{last_op}"), "decode(bytes) does not re-encode to the same bytes / structure", desc(), json!({"envelope": hex::encode(&bytes)})) },
     }
 }
-fn last_op_of(desc: &str) -> String { desc.rsplit(" ; ").next().unwrap_or("").trim_end_matches(']').rsplit('[').next().unwrap_or("").to_string() }
+fn last_op_of(desc: &str) -> String { let x = desc.rsplit(" ; ").next().unwrap_or("").trim_end_matches(']').rsplit('[').next().unwrap_or("").to_string(); if x.is_empty() { "(root)".into() } else { x } }
 
 pub fn run(ctx: &Ctx) -> i32 {
     let th = ctx.tier.thorough();
